@@ -399,6 +399,16 @@ class Driver:
             px = rng.choice([bb.x0 - rng.uniform(1, 40), bb.x1 + rng.uniform(1, 40), rng.uniform(bb.x0, bb.x1)])
             py = rng.choice([bb.y0 - rng.uniform(1, 30), bb.y1 + rng.uniform(1, 30)])
             return {"px": round(float(px), 3), "py": round(float(py), 3)}
+        if rng.random() < 0.06:
+            # a coordinate that is exactly a special value: a table frequency / frequency line, 0 Hz, an axis limit
+            if m.variant == "FDD":
+                cands = [0.0, float(m.freq[rng.randrange(len(m.freq))]), float(x0), float(x1)]
+            else:
+                fin = m.Fn[np.isfinite(m.Fn)]
+                cands = [0.0, float(x0), float(x1)] + ([float(fin[rng.randrange(len(fin))])] if len(fin) else [])
+            x = rng.choice(cands)
+            y = float(rng.uniform(y0, y1)) if m.variant == "FDD" or rng.random() < 0.5 else float(rng.randrange(m.Fn.shape[1]))
+            return {"x": x, "y": y, "snap": True}
         if m.variant == "FDD":
             if r < 0.7:
                 f = m.freq[rng.randrange(len(m.freq))]
@@ -572,6 +582,12 @@ class Driver:
                 ev = tksim.make_mouse(canvas, "button_press_event", px, py, button=e["button"], mods=e.get("mods", ()))
                 ax = self.ax()
                 inside = ev.inaxes is ax and ev.xdata is not None
+                if inside and e.get("snap"):
+                    # the pixel -> data round trip may be off by an ulp; a real click can land on the value exactly
+                    x0_, x1_ = ax.get_xlim()
+                    if abs(float(ev.xdata) - e["x"]) <= 1e-9 * max(1.0, abs(x1_ - x0_)):
+                        ev.xdata = np.float64(e["x"])
+                        self.inc("probe.click_at_exact_special_coordinate")
                 x0, x1 = ax.get_xlim()
                 y0, y1 = ax.get_ylim()
                 xd = float(ev.xdata) if inside else None
